@@ -232,18 +232,18 @@ class BaseAuth:
                 logger.debug("Login failed cache investigation start (entries: %d)", cache_failed_entries)
                 self._lock.acquire()
                 cache_failed_cleanup = dict()
-                for digest in self._cache_failed:
-                    (time_ns_cache, login_cache) = self._cache_failed[digest]
+                for digest_cache in self._cache_failed:
+                    (time_ns_cache, login_cache) = self._cache_failed[digest_cache]
                     age_failed = int((time_ns - time_ns_cache) / 1000 / 1000 / 1000)
                     if age_failed > self._cache_failed_logins_expiry:
-                        cache_failed_cleanup[digest] = (login_cache, age_failed)
+                        cache_failed_cleanup[digest_cache] = (login_cache, age_failed)
                 cache_failed_cleanup_entries = len(cache_failed_cleanup)
                 logger.debug("Login failed cache cleanup start (entries: %d)", cache_failed_cleanup_entries)
                 if cache_failed_cleanup_entries > 0:
-                    for digest in cache_failed_cleanup:
-                        (login, age_failed) = cache_failed_cleanup[digest]
+                    for digest_cache in cache_failed_cleanup:
+                        (login_cache, age_failed) = cache_failed_cleanup[digest_cache]
                         logger.debug("Login failed cache entry for user+password expired: '%s' (age: %d > %d sec)", login_cache, age_failed, self._cache_failed_logins_expiry)
-                        del self._cache_failed[digest]
+                        del self._cache_failed[digest_cache]
                 self._lock.release()
                 logger.debug("Login failed cache investigation finished")
             # check for cache failed login
